@@ -283,8 +283,17 @@ func checkSanitisers(c *Ctx, gen *packages.Package) {
 			if tc, ok := ast.Unparen(tested).(*ast.CallExpr); ok {
 				if tf := goan.Callee(info, tc); tf != nil {
 					switch goan.CalleeName(tf) {
-					case "strings.TrimLeft", "strings.TrimSpace", "strings.TrimLeftFunc":
+					case "strings.TrimSpace":
 						trimmed = true
+					case "strings.TrimLeftFunc":
+						// go/build trims every Unicode white space, not only blanks and tabs
+						if len(tc.Args) == 2 {
+							if pf := goan.Callee(info, &ast.CallExpr{Fun: tc.Args[1]}); pf != nil && goan.CalleeName(pf) == "unicode.IsSpace" {
+								trimmed = true
+							} else if se, ok := ast.Unparen(tc.Args[1]).(*ast.SelectorExpr); ok && se.Sel.Name == "IsSpace" {
+								trimmed = true
+							}
+						}
 					}
 				}
 			}
@@ -323,7 +332,36 @@ func checkSanitisers(c *Ctx, gen *packages.Package) {
 			}
 			return true
 		})
-		c.Check(neutralised, rule, "generator.padComment › a line starting with +build is rewritten", c.posOf(gen, fd.Pos()), "lines with the prefix +build get another head",
+		// carriage returns vanish when the file is formatted: they are dropped before the lines are looked at
+		crDropped := false
+		for _, as := range constArgs(fd.Body, "strings.ReplaceAll") {
+			if len(as) == 3 && as[1] == "\r" && as[2] == "" {
+				crDropped = true
+			}
+		}
+		// and the guard is on every path: no return before it
+		guardPos, earlyReturn := token.NoPos, false
+		ast.Inspect(fd.Body, func(n ast.Node) bool {
+			if call, ok := n.(*ast.CallExpr); ok && guardPos == token.NoPos {
+				if fn := goan.Callee(info, call); fn != nil && goan.CalleeName(fn) == "strings.HasPrefix" && len(call.Args) == 2 {
+					if s, ok := goan.StringVal(info, call.Args[1]); ok && strings.HasPrefix("+build", s) && s != "" {
+						guardPos = call.Pos()
+					}
+				}
+			}
+			return true
+		})
+		ast.Inspect(fd.Body, func(n ast.Node) bool {
+			if _, isLit := n.(*ast.FuncLit); isLit {
+				return false
+			}
+			if rs, ok := n.(*ast.ReturnStmt); ok && guardPos != token.NoPos && rs.Pos() < guardPos {
+				earlyReturn = true
+			}
+			return true
+		})
+		neutralised = neutralised && crDropped && !earlyReturn
+		c.Check(neutralised, rule, "generator.padComment › a line starting with +build is rewritten", c.posOf(gen, fd.Pos()), "lines whose first non-space text is +build get another head, on every path, carriage returns dropped",
 			"padComment lets a line of free text that starts with `+build` through: `// +build ignore` in any comment of a generated file is a build constraint (gofmt moves it to the top of the file), so a description decides whether the file is compiled")
 	}
 	// escapeBackticks (FuncMap literal) and generateReadableSpec
